@@ -261,7 +261,8 @@ CHECKS["C15"] = dict(
     assumptions=["names are concrete, file bytes symbolic", "wildcards: one pattern shape (prefix*) in the last component"],
     obligations=[
         ob("VH_C15_overlay", dict(Y=0), pkg=COPY, covers=["conflict", "overlay", "idempotent"], bounds="one colliding name x, all type pairs"),
-        ob("VH_C15_wildcard", {}, pkg=COPY, covers=["no-match", "matches"], bounds="wildcard source t/x* over names x1, x2, y each in {absent, file, dir with children, symlink}, target directory absent / empty / holding a colliding file"),
+        ob("VH_C15_wildcard", {}, pkg=COPY, covers=["no-match", "matches", "nested-match"], bounds="wildcard source t/x* over names x1, x2, y each in {absent, file, dir with children, symlink}, optionally a matching name inside the non-matching directory, target directory absent / empty / holding a colliding file"),
+        ob("VH_C15_wildcard", dict(PAT=1), pkg=COPY, covers=["no-match", "matches", "middle-wildcard"], bounds="wildcard in a middle component: t/*/k over the same trees"),
         ob("VH_C15_overlay", dict(Y=1), T, pkg=COPY, covers=["conflict", "overlay", "idempotent"], bounds="two colliding names x, y", max_paths=600000),
     ],
 )
@@ -277,6 +278,7 @@ CHECKS["C10"] = dict(
         ob("VH_C10_filter", dict(NI=0, NE=2), covers=["incremental-class", "agreeing-class"], bounds="<=2 exclude patterns"),
         ob("VH_C10_filter", dict(NI=1, NE=1), covers=["agreeing-class"], bounds="<=1 include and <=1 exclude pattern"),
         ob("VH_C10_map", {}, covers=["skipdir", "exclude"], bounds="map function only: every assignment of keep(+rewrite)/exclude/skip-dir to the 5 entries"),
+        ob("VH_C10_mappat", {}, covers=["skipdir", "exclude", "lazy-skipdir", "lazy-ancestor", "done"], bounds="concrete tree a/{b/{c}, d, e/{c}}, f; <=1 include from 8 and <=1 exclude from 3 templates; map result solver-chosen on every directory and on one file"),
         ob("VH_C10_glob", dict(NI=1, NE=0), covers=["done"], bounds="wildcard templates ('*' inside a component, '**' across components), concrete names from {a, b, ab}, <=1 include"),
         ob("VH_C10_glob", dict(NI=0, NE=1), covers=["done"], bounds="wildcard templates, <=1 exclude"),
         ob("VH_C10_glob", dict(NI=1, NE=1), T, covers=["done"], bounds="wildcard templates, <=1 include and <=1 exclude"),
